@@ -7,6 +7,7 @@ import (
 	"context"
 	"fmt"
 	"sync"
+	"time"
 
 	"github.com/nspcc-dev/neo-go/pkg/core/mempoolevent"
 	"github.com/nspcc-dev/neo-go/pkg/core/state"
@@ -50,7 +51,13 @@ type Node struct {
 	// Nodes is the network map the fake Netmap contract reports.
 	Nodes []netmaprpc.NetmapNode2
 	Epoch uint64
+	// FailRead makes the named Netmap contract read ("listNodes", "config") FAULT.
+	FailRead map[string]bool
 }
+
+// IndexerTimeout is the cache time-out of the innerRingIndexer of nodes created afterwards (0 = every query
+// goes to the chain).
+var IndexerTimeout time.Duration
 
 // Iter wraps items as an inline-expanded iterator result.
 func Iter(items ...stackitem.Item) stackitem.Item {
@@ -76,7 +83,7 @@ func New(ctx context.Context, me *keys.PrivateKey, committee keys.PublicKeys, nA
 	if err != nil {
 		return nil, err
 	}
-	n := &Node{Env: env, Epoch: 10}
+	n := &Node{Env: env, Epoch: 10, FailRead: map[string]bool{}}
 	n.Netmap, err = nmClient.NewFromMorph(env.Cli, env.C.Netmap, nmClient.AsAlphabet())
 	if err != nil {
 		return nil, err
@@ -87,7 +94,7 @@ func New(ctx context.Context, me *keys.PrivateKey, committee keys.PublicKeys, nA
 	}
 	n.Srv = innerring.NewVerifServer(innerring.VerifServerPrm{
 		Log: log, Key: me, FSChain: env.Cli, Mainnet: env.Cli, Netmap: n.Netmap,
-		AlphabetContracts: env.C.Alphabet, IndexerTimeout: 0, MainNotaryDisabled: true,
+		AlphabetContracts: env.C.Alphabet, IndexerTimeout: IndexerTimeout, MainNotaryDisabled: true,
 		EpochTimers: timers.NewTimers(timers.EpochTicks{}),
 	})
 	n.Listener, err = event.NewListener(event.ListenerParams{Logger: log, Client: env.Cli})
@@ -100,6 +107,9 @@ func New(ctx context.Context, me *keys.PrivateKey, committee keys.PublicKeys, nA
 	env.OnRead(env.C.Netmap, "listNodes", func(fakechain.Call) ([]stackitem.Item, string) {
 		n.Mu.Lock()
 		defer n.Mu.Unlock()
+		if n.FailRead["listNodes"] {
+			return nil, "fakechain: netmap read failure"
+		}
 		items := make([]stackitem.Item, len(n.Nodes))
 		for i := range n.Nodes {
 			items[i], _ = n.Nodes[i].ToStackItem()
@@ -112,6 +122,11 @@ func New(ctx context.Context, me *keys.PrivateKey, committee keys.PublicKeys, nA
 		return []stackitem.Item{stackitem.Make(n.Epoch)}, ""
 	})
 	env.OnRead(env.C.Netmap, "config", func(fakechain.Call) ([]stackitem.Item, string) {
+		n.Mu.Lock()
+		defer n.Mu.Unlock()
+		if n.FailRead["config"] {
+			return nil, "fakechain: config read failure"
+		}
 		return []stackitem.Item{stackitem.Make(240)}, ""
 	})
 	env.Const(env.C.Netmap, "lastEpochBlock", stackitem.Make(50))
